@@ -65,6 +65,7 @@ type nodeChk struct {
 	nextApply       uint64
 	applyOutSizes   []uint64 // sizes of batches handed out and not yet acknowledged
 	snapOutstanding bool
+	preSnapHad      bool // C09: before the current Step(MsgSnap) the log held the snapshot's (index, term)
 
 	// C18
 	emitted   *absLog
@@ -400,6 +401,13 @@ func (k *Checker) onCrash(n *Node) {
 
 // preCall runs before a RawNode call.
 func (k *Checker) preCall(n *Node, what string, m *pb.Message) {
+	if what == "Step" && m != nil && m.GetType() == pb.MsgSnap {
+		// C09: does the log, before the step, hold the snapshot's (index, term)?
+		x := k.nc[n.id]
+		md := m.GetSnapshot().GetMetadata()
+		t, ok := x.termAt(md.GetIndex())
+		x.preSnapHad = ok && t == md.GetTerm()
+	}
 	if what == "Step" && m != nil && m.GetType() == pb.MsgProp {
 		k.noteDeliveredProp(n, &n.st, m)
 	}
